@@ -525,7 +525,9 @@ class ApplyMixin:
         if not c.modifies and c.opts.get("function", True) and all(a.t is not None for a in env.values()):
             sig = [self.voc.Val] * len(env) + [z3.IntSort(), self.voc.Val]
             fsym = self.voc.fn("res_" + c.key.split("::")[-1].replace(".", "_") + f"_{len(env)}", *sig)
-            res_t = fsym(*[self.box(a) for a in env.values()], self.heap_epoch(st))
+            # externals are functions of their arguments only; repository functions may read the heap
+            ep = z3.IntVal(0) if (c.assumed and not c.opts.get("reads_heap")) else self.heap_epoch(st)
+            res_t = fsym(*[self.box(a) for a in env.values()], ep)
         else:
             res_t = self.fresh("res")
         result = self.with_sort(res_t, rsort)
@@ -548,8 +550,8 @@ class ApplyMixin:
         key = (st.epoch,) + tuple(sorted((a, h.get_id()) for a, h in st.heap.items() if not h.eq(self.heap0(a, st.epoch))))
         tab = self.__dict__.setdefault("_epochs", {})
         if key not in tab:
-            tab[key] = len(tab)
-        return z3.IntVal(tab[key])
+            tab[key] = (len(tab), list(st.heap.values()))     # keep the arrays alive: ids must stay unique
+        return z3.IntVal(tab[key][0])
 
     def eval_clause(self, cl, st: St, fr: Frame):
         sv = self.eval_clause_value(cl, st, fr)
